@@ -80,7 +80,8 @@ class Local(FileSystem):
             return io.BytesIO(f.read())
 
     def load_text(self, encoding='utf8', encoding_errors='ignore'):
-        with io.open(self.file_path, 'r',
+        # newline='': keep line endings as they are in the file
+        with io.open(self.file_path, 'r', newline='',
                      encoding=encoding, errors=encoding_errors) as f:
             return io.StringIO(f.read())
 
